@@ -246,8 +246,8 @@ def _reg(i):
 
 
 SN = [0, 1, 2, 3, 4]
-QUICK = [_reg(Variants("variants_k2", 2, [1, 3], [5, 3], [0, 1, 3, 4])).name, _reg(Splitters("one_k2", 2, [1, 3], [5], SN)).name, _reg(Splitters("two_k2", 2, [1], [3, 2], [0, 1, 4], relational=True)).name]
-THOROUGH = [_reg(Variants("T_variants_k2", 2, [1, 2, 3], [6, 4], SN)).name, _reg(Variants("T_variants_k3", 3, [2, 4], [8], [0, 1, 2, 3, 4])).name, _reg(Splitters("T_one_k2", 2, [1, 2, 3], [6], SN)).name, _reg(Splitters("T_two_k2", 2, [1, 2], [4, 3], SN)).name, _reg(Splitters("T_one_k3", 3, [1, 2], [6], SN)).name]
+QUICK = [_reg(Variants("variants_k2", 2, [3], [5, 1], [0, 1, 3, 4])).name, _reg(Splitters("one_k2", 2, [1, 3], [5], SN)).name, _reg(Splitters("two_k2", 2, [1], [3, 2], [0, 1, 4], relational=True)).name]
+THOROUGH = [_reg(Variants("T_variants_k2", 2, [1, 3], [5, 3], [0, 1, 3, 4])).name, _reg(Variants("T_variants_k3", 3, [2, 4], [6], [0, 1, 3, 4])).name, _reg(Splitters("T_one_k2", 2, [1, 2, 3], [6], SN)).name, _reg(Splitters("T_two_k2", 2, [1, 2], [4, 3], SN)).name, _reg(Splitters("T_one_k3", 3, [1, 2], [6], SN)).name]
 
 
 def run(ctx):
